@@ -5,7 +5,7 @@
    satisfiable on every circuit and the theorems can be stated without it for this law. *)
 From Coq Require Import List ZArith QArith Bool Lia Permutation.
 From DD Require Import Model.Circuit Model.Query Model.Enumerate
-     Proofs.PassLemmas Proofs.Enum Proofs.Semantics Proofs.CountsA
+     Proofs.PassLemmas Proofs.Enum Proofs.Semantics Proofs.CountsA Proofs.Live Proofs.LiveCounts
      Proofs.C07Defs Proofs.C07Valid Proofs.C07Urs Proofs.C07IdealDefs Proofs.C07Uniform Proofs.C07Align
      Proofs.QueryDefs Proofs.ExecTemps Proofs.C07Final
      Proofs.C07GeneralDefs Proofs.C07GeneralDist Proofs.C07GeneralAlign Proofs.C07GeneralUniform Proofs.C07GeneralFinal.
@@ -220,13 +220,16 @@ Theorem SL_multi_ideal (C : circuit) (A : cfg) (ts : list Z) :
   (forall i cs c, (i < length C)%nat -> nth i C FalseN = Or cs -> In c cs -> nth c C FalseN <> TrueN) ->
   splits_ideal C ts (SL_multi C ts).
 Proof.
-  intros Hok Hts Hnt i cs a Hi E Ha Hti. unfold SL_multi. rewrite E.
+  intros Hok Hts Hnt i cs a Hi E Ha Hti HR. unfold SL_multi. rewrite E.
   pose proof (idx_ok_nth C i FalseN Hok Hi) as Hch. rewrite E in Hch. cbn [children] in Hch.
+  assert (Htie : nth i ts 0 = nth i (countsA A C) 0) by (apply Hts; [exact Hi|congruence|exact HR]).
   assert (Hc : forall c, In c cs -> nth c ts 0 = nth c (countsA A C) 0).
-  { intros c Hc. apply Hts; [specialize (Hch c Hc); lia|exact (Hnt i cs c Hi E Hc)]. }
+  { intros c Hc. apply Hts; [specialize (Hch c Hc); lia|exact (Hnt i cs c Hi E Hc)|].
+    apply (reach_child C i c HR Hi); [|now rewrite E].
+    apply (count_of_countsA_nonzero C Hok A i Hi). now rewrite <- Htie. }
   rewrite <- (Z2Nat.id a) at 1 by lia.
   apply multi_split_ideal; [exact Hti| |].
-  - rewrite (Hts i Hi ltac:(congruence)), (countsA_unfold A C i 0 Hok Hi), E. cbn [countA_node].
+  - rewrite Htie, (countsA_unfold A C i 0 Hok Hi), E. cbn [countA_node].
     f_equal. apply map_ext_in. exact Hc.
   - intros c Hc'. rewrite (Hc c Hc'). apply (countsA_bounds A C Hok). specialize (Hch c Hc'). lia.
 Qed.
